@@ -170,6 +170,11 @@ func checkAndUpdateTotalPendingStakesOfValidator(cfg *params.YouParams, db *stat
 		totalTokens.Set(val.Token)
 	}
 	totalTokens.Add(totalTokens, deltaTokens)
+	if totalTokens.Sign() < 0 {
+		// the validator's own record may hold a SELF-token based value (handleWithdraw), which a
+		// delegator's subtraction can exceed; a negative value cannot be stored
+		totalTokens.SetUint64(0)
+	}
 	if deltaTokens.Sign() > 0 {
 		stake := params.YOUToStake(totalTokens).Uint64()
 		if threshold := cfg.MaxStakes[val.Role]; threshold > 0 && stake > threshold {
